@@ -13,7 +13,7 @@ RULE = ('(a) random valid configurations (1-3 connections x 1-3 protect entries,
         'reversed selector and template, all with the entry\'s IP protocol, ports, IPsec protocol and mode - nothing else; after close() both are empty. '
         '(b) RESTART POINTS: a scripted two-endpoint history is cut after every micro-step, the controller object dropped and a new one built on the same kernel: '
         'same oracle; also with the configuration switched ESP <-> AH between the two incarnations (the fake kernel interprets the protocol octet of FLUSHSA as xfrm_id_proto_match does). (c) ACQUIRE mapping: for every protect entry, kernel-encoded ACQUIREs with selectors at the corners of the entry (first / last address, '
-        'port 0 / the entry\'s port / 65535) are fed through the real main_loop: the negotiation goes to that connection\'s peer, re-uses an established IKE_SA with '
+        'port 0 / the entry\'s port / 65535; for an any-protocol any-port entry also 17 special points such as UDP 500->500, 4500, DNS, ICMP, ESP, AH, GRE, SCTP) are fed through the real main_loop: the negotiation goes to that connection\'s peer, re-uses an established IKE_SA with '
         'it (CREATE_CHILD_SA instead of a new IKE_SA_INIT), and the request opened by the wire shadow carries the entry\'s proposal, mode (and the SAs then installed its lifetime), and TSi/TSr that contain '
         'the acquire\'s selector and the entry\'s selector and lie inside the entry\'s; an ACQUIRE with an unknown index emits nothing and leaves the table unchanged; bursts of 2-5 ACQUIREs for different flows of one entry arriving while the IKE_SA is busy (handshake, DPD, IKE_SA rekey or CHILD_SA rekey in flight) are all served: every flow is asked for on the wire and gets its CHILD_SA, no IKE_SA lost. '
         'distinct = configuration / restart point / acquire signatures.')
@@ -209,6 +209,10 @@ def corners(net, port):
     return [(a, p) for a in addrs for p in ports]
 
 
+SPECIAL_FLOWS = [(17, 500, 500), (17, 4500, 4500), (17, 500, 4500), (17, 53, 53), (17, 67, 68), (17, 40001, 500), (6, 22, 22), (6, 443, 40000), (6, 179, 179), (1, 0, 0), (58, 0, 0),
+                 (50, 0, 0), (51, 0, 0), (47, 0, 0), (132, 5000, 5000), (17, 65535, 65535), (6, 1, 1)]
+
+
 def acquire_case(ck, rng, i):
     """Two real endpoints, A with several protect entries (B mirrors them); ACQUIREs for every entry and corner."""
     mixed = i % 3 == 0
@@ -226,6 +230,10 @@ def acquire_case(ck, rng, i):
         base['lifetime'] = 100 + 50 * (e['index'] % 7)
         x = dict(base, index=e['index'], my_subnet=e['my_subnet'], peer_subnet=e['peer_subnet'], my_port=e['my_port'], peer_port=e['peer_port'], ip_proto=e['ip_proto'], mode=e['mode'])
         y = dict(base, index=e['index'], my_subnet=e['peer_subnet'], peer_subnet=e['my_subnet'], my_port=e['peer_port'], peer_port=e['my_port'], ip_proto=e['ip_proto'], mode=e['mode'])
+        if e['index'] == 12 and i % 4 >= 2:
+            # A prefers a group B does not have: every CREATE_CHILD_SA of this entry is first refused with INVALID_KE_PAYLOAD and retried; the NEXT acquire
+            # must again carry the entry's proposal as written
+            x['dh'], y['dh'] = ['21', '19'], ['19']
         pa.append(x)
         pb.append(y)
     # the entry with the ANY policy over the same networks would shadow entry 12 at the responder: keep B's most specific first
@@ -241,11 +249,18 @@ def acquire_case(ck, rng, i):
         pnum = PROTO_NUM[e['ip_proto']]
         combos = [(s_, d_) for s_ in corners(mynet, e['my_port']) for d_ in corners(peernet, e['peer_port'])]
         rng.shuffle(combos)
-        for (sa_, sp), (da_, dp) in combos[:3 if not ck.thorough() else 8]:
+        combos = [(x_, y_, None) for x_, y_ in combos[:3 if not ck.thorough() else 8]]
+        if e['ip_proto'] == 'any' and not e['my_port'] and not e['peer_port']:
+            # single points of the protocol / port space that an implementation might treat specially (IKE itself, NAT-T, DNS, ICMP, ESP, AH, GRE, SCTP ...): still flows of this entry
+            inner_s, inner_d = str(mynet[mynet.num_addresses // 2]), str(peernet[peernet.num_addresses // 2])
+            for pr_, sp_, dp_ in SPECIAL_FLOWS:
+                combos.append(((inner_s, sp_), (inner_d, dp_), pr_))
+                ck.count('acquire.special_flows')
+        for (sa_, sp), (da_, dp), forced_proto in combos:
             selfam = socket.AF_INET if mynet.version == 4 else socket.AF_INET6
             plen = 32 if mynet.version == 4 else 128
             sel = {'family': selfam, 'saddr': sa_, 'daddr': da_, 'sport': sp, 'dport': dp, 'sport_mask': 0xFFFF if sp else 0, 'dport_mask': 0xFFFF if dp else 0,
-                   'prefixlen_s': plen, 'prefixlen_d': plen, 'proto': pnum if pnum else rng.choice([0, 6, 17])}
+                   'prefixlen_s': plen, 'prefixlen_d': plen, 'proto': forced_proto if forced_proto is not None else pnum if pnum else rng.choice([0, 6, 17])}
             ev = xfrmdec.enc_acquire(S.B4, S.A4, sel, (e['index'] << 3) | 1, proto=50, family=socket.AF_INET, mode=1)
             wire0 = len(sim.wire)
             tab0 = [id(x) for x in a.ctl.ike_sas]
@@ -305,6 +320,21 @@ def acquire_case(ck, rng, i):
                 bad.append('mode')
             if sa_p['proto'] != 3:
                 bad.append('protocol')
+            # the transforms offered are the entry's, in the order written (a CHILD_SA of IKE_AUTH is offered without Diffie-Hellman groups)
+            conf_e = pa[ents.index(e)]
+            want_trs = [{'aes256': (1, 12, 256), 'aes128': (1, 12, 128)}[n_] for n_ in conf_e['encr']] + [(3, {'sha1': 2, 'sha256': 12, 'sha512': 14}[n_], None) for n_ in conf_e['integ']]
+            if offer['exch'] == 36:
+                want_trs += [(4, int(g_), None) for g_ in conf_e.get('dh', [])]
+            want_trs.append((5, 0, None))
+            got_trs = [(t['type'], t['id'], t['keylen']) for t in sa_p['transforms']]
+            ck.count('acquire.proposals_compared')
+            if got_trs != want_trs:
+                bad.append('proposal-differs-from-the-entry-as-written')
+            ke = next((p for p in inner if p['type'] == codec.KE), None)
+            if offer['exch'] == 36 and conf_e.get('dh'):
+                ck.count('acquire.pfs_offers')
+                if ke is None or ke['group'] != int(conf_e['dh'][0]):
+                    bad.append('ke-group-is-not-the-first-configured-group')
             if bad:
                 ck.violation(f"offer-after-acquire-does-not-match-the-entry:{'+'.join(bad)}", {'entry': e['index'], 'tsi': tsi, 'tsr': tsr, 'acquire': sel}, sim.case)
             # the SAs installed for this offer carry the entry's lifetime (plus the documented 0-5 s jitter) and hard = soft + 10
@@ -434,6 +464,9 @@ def verdict(ck):
     ck.floor('restart points', c['restart.points'], 30)
     ck.floor('restarts with the configuration switched to the other IPsec protocol', c['restart.with_edited_configuration'], 20)
     ck.floor('restarts with stale SAs in the kernel', c['restart.with_stale_sas'], 20)
+    ck.floor('acquires for special protocol / port points of an any-any entry', c['acquire.special_flows'], 100)
+    ck.floor('offered proposals compared with the entry as written', c['acquire.proposals_compared'], 120)
+    ck.floor('offers of an entry whose first DH group the peer refuses', c['acquire.pfs_offers'], 15)
     ck.floor('acquires sent', c['acquire.sent'], 150)
     ck.floor('offers checked', c['acquire.offers_checked'], 120)
     ck.floor('installed lifetimes checked', c['acquire.lifetimes_checked'], 100)
